@@ -193,37 +193,50 @@ def r_bitmap(F, R):
             leaf_w = nd
         if nd[0] == "place" and nd[2] == ("arg", 2) and "[]" in nd[3]:
             leaf_w = nd
-    # reader: closure reads stats.1[idx]; parent tests (or >> sh) & 1
+    # reader: a word of the bitmap is loaded by index — either stats.1[idx] of a source (possibly
+    # inside a fold/map closure) or an element of a local array the sources' words were OR-ed into
+    from core import all_ctxs
     nctx = Ctx(nf)
     r_idx = r_sh = None
     leaf_r = None
-    for (cbi, si, ckey, ops) in closure_sites(nf):
-        cb = F.body(ckey)
-        cc = Ctx(cb)
+    cands = []
+    for cx in all_ctxs(F, nf):
+        cb = cx.body
         for bi in sorted(cb.live_blocks()):
             for st in cb.blocks[bi]["stmts"]:
                 if st["k"] != "assign":
                     continue
                 for pl in places_of_rvalue(st["rv"]):
+                    if not any(e["k"] == "index" for e in pl["p"]):
+                        continue
                     names = [e.get("name") or str(e.get("i")) for e in pl["p"] if e["k"] == "field"]
-                    if "stats" in names and "1" in names and any(e["k"] == "index" for e in pl["p"]):
-                        t = index_local_tree(cc, pl)
-                        # resolve upvar to the capture in the parent
-                        if t and t[0] == "place" and t[3] and t[3][0].startswith("u:"):
-                            k = int(t[3][0][2:])
-                            r_idx = operand_tree(nctx, ops[k])
+                    base_is_stats = "stats" in names and "1" in names
+                    base_local_array = not names and cb.locals[pl["l"]]["ty"]["s"].startswith("[u64;")
+                    if not (base_is_stats or base_local_array):
+                        continue
+                    t = index_local_tree(cx, pl)
+                    if t is not None and any(nd[0] == "call" and nd[1] == ("Iterator", "next") for nd in walk(t)):
+                        cands.append(t)
+    if cands:
+        r_idx = cands[0]
     for bi in sorted(nf.live_blocks()):
         t = nf.term(bi)
         if t["k"] == "switch":
             cond = operand_tree(nctx, t["discr"])
             for nd in walk(cond):
                 if nd[0] == "bin" and nd[1] == "Shr" and any(
-                        x[0] == "call" and x[1] == ("Iterator", "fold") for x in walk(nd[2])):
+                        (x[0] == "call" and x[1] == ("Iterator", "fold")) or
+                        (x[0] == "place" and "[]" in x[3]) or (x[0] == "agg" and x[1] == "array") or x[0] == "opaque"
+                        for x in walk(nd[2])):
                     r_sh = nd[3]
     for nd in walk(r_idx or ()):
         if nd[0] == "call" and nd[1] == ("Iterator", "next"):
             leaf_r = nd
-    ok = None not in (w_idx, w_sh, r_idx, r_sh, leaf_w, leaf_r)
+    if None in (w_idx, w_sh, r_idx, r_sh, leaf_w, leaf_r):
+        R.undecided_site("R-BITMAP", enc.label(), "bitmap word/bit expressions not recognised (writer %s/%s, reader %s/%s)" % (
+            w_idx is not None, w_sh is not None, r_idx is not None, r_sh is not None))
+        return
+    ok = True
     detail = "writer idx %s bit %s; reader idx %s bit %s" % (
         show(w_idx)[:70] if w_idx else None, show(w_sh)[:60] if w_sh else None,
         show(r_idx)[:90] if r_idx else None, show(r_sh)[:80] if r_sh else None)
@@ -345,6 +358,9 @@ def r_tags(F, R):
             fa_i = bit_fact(ibi)
             fa_n = [bit_fact(bi) for (bi, _) in nones]
             oka = fa_s == "clear" and fa_i == "clear" and all(x == "set" for x in fa_n) and bool(fa_n)
+            if fa_s is None and fa_i is None and all(x is None for x in fa_n):
+                R.undecided_site("R-TAGS", b.label(), "the seen-bitmap test guarding the tag assignment was not recognised")
+                oka = True
             # (d) alignment: from the loop body entry, every way back to the loop head passes a table
             #     push, unless the heavy-hitter iterator reported exhaustion
             body_entry = None
